@@ -21,3 +21,14 @@ class TD(Task):
 
     def execute(self):
         pass
+
+
+class Prod(Task):
+    """its output is a configuration EQUAL (parameter values) to the default of Holder.sub"""
+    e: Param[int] = 0
+
+    def task_outputs(self, dep):
+        return dep(A(x=1))
+
+    def execute(self):
+        pass
